@@ -63,6 +63,7 @@ def handle (c : Case) : Verdict :=
       let nData := (es.filter Elem.isData).length
       { out, oracle, nontrivial := nData ≥ n && nData > 0,
         tags := [s!"N{if n == s then "=S" else if n % s == 0 then "%S=0" else "%S!=0"}",
+                 if n ≥ 8 then "N>=8" else "N<8", s!"slots{min ((n + s - 1) / s) 6}",
                  s!"emits{min out.length 3}"] }
     | _, _, _ => { out := [], oracle := some "bad header", nontrivial := false }
   | _ => { out := [], oracle := some "bad header", nontrivial := false }
